@@ -100,6 +100,8 @@ type State struct {
 	pendingDocAssign []docAssign
 	pendingStrChoice []strChoice
 	sumDone   bool
+	sumPending bool
+	sumCoarse  bool
 	stops     []stopPoint
 	arrived   int
 	pcChecked *PC
